@@ -84,25 +84,28 @@ def checkPlanX (c : Case) : CaseResult := Id.run do
   match inp.nodes.find? (fun n => !(qn.any (fun q => q.id == n.id && q.p == n.p))) with
   | some v => return { verdict := .specfail s!"planarise: original node {v.id} missing or moved", stats := stats }
   | none => pure ()
-  -- tie, stage by stage
-  let mut diff : Option String := none
-  -- 1. bends
+  -- tie, stage by stage; a difference is excused only by an ambiguity that can influence that stage
   let implBends : Option (List (List Node)) := (c.get "pb").toList.mapM (fun l => nodes3? (l.extract 1 l.size).toList)
   match implBends with
-  | none => diff := some "bends: unparsable"
+  | none => return { verdict := .diverge "planarise tie: bends unparsable", stats := stats }
   | some ib =>
     let ib := ib.map (·.map renN)
     if ib != out.bends then
-      diff := some s!"bends: impl {ib.map showNodes} model {out.bends.map showNodes}"
-  -- 2. overlap-free graph
-  if diff.isNone then
-    let mN := sortNodes (inp.nodes ++ out.bendNodes)
-    let iN := sortNodes (onN.map renN)
-    let mE := sortPairs (out.ofEdges.map (fun e => (e.1.id, e.2.id)))
-    let iE := sortPairs ((c.get "oe").toList.map (fun l => (ren (nat! l[0]!), ren (nat! l[1]!))))
-    if mN != iN then diff := some s!"overlap-free nodes: impl {showNodes iN} model {showNodes mN}"
-    else if mE != iE then diff := some s!"overlap-free edges: impl {iE} model {mE}"
-  -- 3. planar graph
+      return { verdict := .diverge s!"planarise tie: bends: impl {ib.map showNodes} model {out.bends.map showNodes}", stats := stats }
+  let mut diff : Option String := none
+  -- overlap-free graph (partition + group sort)
+  let mN := sortNodes (inp.nodes ++ out.bendNodes)
+  let iN := sortNodes (onN.map renN)
+  let mE := sortPairs (out.ofEdges.map (fun e => (e.1.id, e.2.id)))
+  let iOE := sortPairs ((c.get "oe").toList.map (fun l => (ren (nat! l[0]!), ren (nat! l[1]!))))
+  if mN != iN then diff := some s!"overlap-free nodes: impl {showNodes iN} model {showNodes mN}"
+  else if mE != iOE then diff := some s!"overlap-free edges: impl {iOE} model {mE}"
+  match diff with
+  | some d =>
+    if !(amb.fragile || amb.groupTies) then
+      return { verdict := .diverge s!"planarise tie: {d}", stats := stats }
+  | none => pure ()
+  -- planar graph
   let iE := sortPairs ((c.get "qe").toList.map (fun l => (ren (nat! l[0]!), ren (nat! l[1]!))))
   if diff.isNone then
     let mN := sortNodes out.nodes
@@ -116,10 +119,17 @@ def checkPlanX (c : Case) : CaseResult := Id.run do
     else return { verdict := .diverge s!"planarise tie: {d}", stats := stats }
   | none => stats := ("planx.tieExact", 1) :: stats
   -- spec checks on the implementation's output, under the theorems' hypothesis
-  if sep then
-    let qnR := qn.map renN
-    let implCross := (qnR.filter (fun n => n.id ≥ base + out.bendNodes.length)).map (·.p)
-    let want := specCrossings (out.ofEdges.map (fun e => mkSeg e.1 e.2))
+  -- crossings_sound / crossings_complete on the segment list the LIBRARY hands to computeCrossings
+  -- (one EdgeSegment per edge of its overlap-free graph), whenever that list satisfies `Good`
+  let qnR := qn.map renN
+  let onIds := onN.map (·.id)
+  let implCross := (qn.filter (fun n => !onIds.contains n.id)).map (·.p)
+  let implSegs := (c.get "oe").toList.filterMap (fun l =>
+    match onN.find? (fun n => n.id == nat! l[0]!), onN.find? (fun n => n.id == nat! l[1]!) with
+    | some u, some v => some (mkSeg u v) | _, _ => none)
+  if goodB implSegs then
+    stats := ("planx.goodSegs", 1) :: stats
+    let want := specCrossings implSegs
     match want.find? (fun p => !implCross.contains p) with
     | some p => return { verdict := .specfail s!"planarise: crossing at {showPt p} of the overlap-free graph got no crossing node (crossings_complete)", stats := stats }
     | none => pure ()
@@ -128,6 +138,7 @@ def checkPlanX (c : Case) : CaseResult := Id.run do
     | none => pure ()
     if implCross.length != want.length then
       return { verdict := .specfail s!"planarise: {implCross.length} crossing nodes for {want.length} crossing points", stats := stats }
+  if sep then
     let pos (i : Nat) : Option Pt := (qnR.find? (fun n => n.id == i)).map (·.p)
     let segs := iE.filterMap (fun e => match pos e.1, pos e.2 with
       | some a, some b => some (a, b) | _, _ => none)
